@@ -103,7 +103,11 @@ def iterStep (lv : Level) (runId : String) (buf : Option Chunk) (c : Chunk) : Ex
   pure (out, rest)
 
 def pluginIter (lv : Level) (runId : String) : Option Chunk → List Chunk → Except Err (List Chunk)
-  | _, [] => pure []
+  | buf, [] =>
+    -- sources exhausted: "Plugin … terminated with leftover …" (every level here saves, `save_when > EXPLICIT`)
+    match buf with
+    | some k => if k.rows.isEmpty then pure [] else throw Err.runtimeError
+    | none => pure []
   | buf, c :: cs => do
     let (o, r) ← iterStep lv runId buf c
     let os ← pluginIter lv runId (some r) cs
